@@ -190,6 +190,37 @@ def census_part(F, C, R, rep, tag=''):
     rep.floor('R14.2', 'arithmetic asserts examined', len(asites), 150)
 
 
+    # ---- indexing census
+    from .census import index_sites
+    isites = index_sites(C, R)
+    perk = {}
+    autoc = {}
+    for fk, kind, b, bb, auto in isites:
+        if auto:
+            autoc[auto] = autoc.get(auto, 0) + 1
+        else:
+            perk.setdefault((fk, kind), []).append((b, bb))
+    for cls, n in sorted(autoc.items()):
+        rep.ok('R14.9', tag + 'class %s' % cls, '%d indexing site(s) discharged automatically' % n)
+    for (fk, kind), lst in sorted(perk.items()):
+        ent = None
+        for rx, k, cnt, reason in T.INDEX_TABLE:
+            if k == kind and re.search(rx, fk):
+                ent = (cnt, reason)
+                break
+        if ent and len(lst) <= ent[0]:
+            rep.ok('R14.9', tag + '%s %s x%d' % (fk, kind, len(lst)), 'reviewed: ' + ent[1])
+        elif ent:
+            _viol_once(rep, 'R14.9', '%s|index:%s|count' % (fk, kind), '%s now has %d %s indexing operations, %d were reviewed: an index that is not provably in range panics instead of raising an index error'
+                       % (fk, len(lst), kind, ent[0]), lst[-1][0].loc(lst[-1][1]))
+        else:
+            what = {'str-range': 'slicing a str by byte positions panics when a position is not a char boundary (or out of range)',
+                    'HashMap': 'indexing a map panics on a missing key'}.get(kind, 'an index or range that is not provably inside the sequence panics')
+            _viol_once(rep, 'R14.9', '%s|index:%s' % (fk, kind), 'unreviewed indexing (%s x%d) in %s, reachable from the pure language: %s - it must be an index/value error a program can catch'
+                       % (kind, len(lst), fk, what), lst[0][0].loc(lst[0][1]))
+    rep.floor('R14.9', 'indexing sites examined', len(isites), 90)
+    rep.extra[tag + 'indexing_sites'] = {'total': len(isites), 'auto_discharged': autoc, 'table_sites': sum(len(v) for v in perk.values())}
+
 
 def run(F, rep, tier):
     C = Census(F)
@@ -204,6 +235,9 @@ def run(F, rep, tier):
     rep.rule('R14.1', 'explicit panic census over the pure-language closure: every unwrap / expect / panic! / panicking borrow is keyed '
              '(function or builtin name, kind, ordinal) and listed with a verdict infeasible / guarded / internal; unlisted => violation')
     # ---------------- R14.2
+    rep.rule('R14.9', 'indexing census: every v[i] / v[a..b] / s[a..b] / map[k] in the closure (MIR bounds checks and Index::index / index_mut calls on Vec, '
+             'slices, str and HashMap) has an index produced by one of the normalisers (pythonic_index*, cyclic_index, pythonic_slice_obj, '
+             'safe_index_inner), is a full range, or is in the reviewed table with an exact count per function and kind')
     rep.rule('R14.2', 'arithmetic census: each overflow / division / remainder / negation assert in the closure is discharged by a class '
              '(unit-step counter, non-zero constant divisor, dominating comparison with the right polarity, exit-count decrement) or by '
              'the reviewed table with an exact per-function count')
